@@ -19,6 +19,7 @@ import (
 	"fmt"
 	"math"
 	"os"
+	"regexp"
 	"strconv"
 	"strings"
 
@@ -43,20 +44,49 @@ type tree struct {
 	leaf leaf
 }
 
-// a leaf: source text (token list), its value as number / boolean / string, precedence class
+// a leaf: source text (token list) and its value: a number, a boolean, a string or a node-set given as the list of
+// (document position, string-value) of its nodes
+type item struct {
+	pos int
+	s   string
+}
+
 type leaf struct {
 	toks  []string
 	num   float64
-	isNum bool // a number (true) or a node-set/string leaf with known conversions
+	isNum bool
 	str   string
-	isSet bool // a node-set (can be an operand of '|')
+	isSet bool
+	items []item
 	boolv bool
 	isB   bool
 }
 
 func numLeaf(src string, v float64) leaf { return leaf{toks: []string{src}, num: v, isNum: true} }
+
+// positions in the document below: @n=1, then the children of r in order
+var childVals = []string{"3", "4", "5", "6", "7", "8", "9", "10", "12", "13", "14"}
+
 func setLeaf(v float64, toks ...string) leaf {
-	return leaf{toks: toks, num: v, isSet: true, str: strconv.FormatFloat(v, 'f', -1, 64)}
+	sv := strconv.FormatFloat(v, 'f', -1, 64)
+	pos := 100 // b/a: inside the last child
+	for i, c := range childVals {
+		if c == sv && v != 14 {
+			pos = 2 + i
+		}
+	}
+	if v == 2 {
+		pos = 1
+	}
+	return leaf{toks: toks, isSet: true, items: []item{{pos, sv}}}
+}
+
+func allChildren(toks ...string) leaf {
+	var it []item
+	for i, c := range childVals {
+		it = append(it, item{2 + i, c})
+	}
+	return leaf{toks: toks, isSet: true, items: it}
 }
 
 // names that spell an operator are legal name tests wherever an operand is expected (section 3.7); they are kept out
@@ -67,13 +97,13 @@ var leaves = []leaf{
 	numLeaf("1", 1), numLeaf("2.5", 2.5), numLeaf(".5", .5), numLeaf("7", 7),
 	setLeaf(3, "a"),
 	setLeaf(8, "a-b"), setLeaf(9, "a.b"), setLeaf(10, "a1"), setLeaf(12, "child"), setLeaf(13, "text"),
-	setLeaf(3, "*"), setLeaf(2, "@", "n"), setLeaf(3, "child", "::", "a"), setLeaf(14, "b", "/", "a"),
+	allChildren("*"), setLeaf(2, "@", "n"), setLeaf(3, "child", "::", "a"), setLeaf(14, "b", "/", "a"),
 	setLeaf(14, "b", "//", "a"), setLeaf(3, "/", "r", "/", "a"), setLeaf(3, ".", "/", "a"), setLeaf(3, "a", "[", "1", "]"),
 	{toks: []string{"count", "(", "*", ")"}, num: 11, isNum: true},
 	{toks: []string{"string-length", "(", "'ab'", ")"}, num: 2, isNum: true},
 	{toks: []string{"$", "v"}, num: 21, isNum: true},
-	{toks: []string{"'x'"}, str: "x", num: math.NaN()},
-	{toks: []string{"true", "(", ")"}, isB: true, boolv: true, num: 1, str: "true"},
+	{toks: []string{"'x'"}, str: "x"},
+	{toks: []string{"true", "(", ")"}, isB: true, boolv: true},
 }
 
 type binop struct {
@@ -93,13 +123,13 @@ func levelOf(op string) int {
 	return 0
 }
 
-// value of a tree (independent evaluator)
+// value of a tree (independent evaluator, XPath 1.0 sections 3.4, 3.5, 4)
 type val struct {
 	n     float64
 	s     string
 	b     bool
-	t     byte // 'n' number, 'b' boolean, 's' string, 'q' node-set (represented by its first node's value)
-	setOK bool
+	t     byte // 'n' number, 'b' boolean, 's' string, 'q' node-set
+	items []item
 }
 
 func xpNumStr(f float64) string {
@@ -116,6 +146,31 @@ func xpNumStr(f float64) string {
 	return strconv.FormatFloat(f, 'f', -1, 64)
 }
 
+func strNum(s string) float64 {
+	f, err := strconv.ParseFloat(strings.TrimSpace(s), 64)
+	if err != nil {
+		return math.NaN()
+	}
+	return f
+}
+
+func (v val) str() string {
+	switch v.t {
+	case 'n':
+		return xpNumStr(v.n)
+	case 'b':
+		if v.b {
+			return "true"
+		}
+		return "false"
+	case 'q':
+		if len(v.items) == 0 {
+			return ""
+		}
+		return v.items[0].s
+	}
+	return v.s
+}
 func (v val) num() float64 {
 	switch v.t {
 	case 'n':
@@ -125,14 +180,8 @@ func (v val) num() float64 {
 			return 1
 		}
 		return 0
-	case 's':
-		f, err := strconv.ParseFloat(strings.TrimSpace(v.s), 64)
-		if err != nil {
-			return math.NaN()
-		}
-		return f
 	}
-	return v.n
+	return strNum(v.str())
 }
 func (v val) boolean() bool {
 	switch v.t {
@@ -143,43 +192,15 @@ func (v val) boolean() bool {
 	case 's':
 		return v.s != ""
 	}
-	return true // every node-set leaf is non-empty
-}
-func (v val) str() string {
-	switch v.t {
-	case 'n':
-		return xpNumStr(v.n)
-	case 'b':
-		if v.b {
-			return "true"
-		}
-		return "false"
-	}
-	return v.s
+	return len(v.items) > 0
 }
 
-func cmp(op string, a, b val) bool {
-	// single-node node-sets behave like their string-value; booleans dominate, then numbers
-	if op == "=" || op == "!=" {
-		var r bool
-		switch {
-		case a.t == 'b' || b.t == 'b':
-			r = a.boolean() == b.boolean()
-		case a.t == 'n' || b.t == 'n':
-			r = a.num() == b.num()
-		default:
-			r = a.str() == b.str()
-		}
-		if op == "!=" {
-			if (a.t == 'n' || b.t == 'n') && a.t != 'b' && b.t != 'b' {
-				return a.num() != b.num()
-			}
-			return !r
-		}
-		return r
-	}
-	x, y := a.num(), b.num()
+func numCmp(op string, x, y float64) bool {
 	switch op {
+	case "=":
+		return x == y
+	case "!=":
+		return x != y
 	case "<":
 		return x < y
 	case "<=":
@@ -188,6 +209,77 @@ func cmp(op string, a, b val) bool {
 		return x > y
 	}
 	return x >= y
+}
+
+func flip(op string) string {
+	switch op {
+	case "<":
+		return ">"
+	case "<=":
+		return ">="
+	case ">":
+		return "<"
+	case ">=":
+		return "<="
+	}
+	return op
+}
+
+func cmp(op string, a, b val) bool {
+	eq := op == "=" || op == "!="
+	if a.t != 'q' && b.t == 'q' {
+		return cmp(flip(op), b, a)
+	}
+	if a.t == 'q' {
+		switch b.t {
+		case 'q':
+			for _, x := range a.items {
+				for _, y := range b.items {
+					if eq {
+						if (x.s == y.s) == (op == "=") {
+							return true
+						}
+					} else if numCmp(op, strNum(x.s), strNum(y.s)) {
+						return true
+					}
+				}
+			}
+			return false
+		case 'b':
+			if eq {
+				return (a.boolean() == b.b) == (op == "=")
+			}
+			return numCmp(op, val{b: a.boolean(), t: 'b'}.num(), b.num())
+		case 'n':
+			for _, x := range a.items {
+				if numCmp(op, strNum(x.s), b.n) {
+					return true
+				}
+			}
+			return false
+		default:
+			for _, x := range a.items {
+				if eq {
+					if (x.s == b.s) == (op == "=") {
+						return true
+					}
+				} else if numCmp(op, strNum(x.s), strNum(b.s)) {
+					return true
+				}
+			}
+			return false
+		}
+	}
+	if eq {
+		switch {
+		case a.t == 'b' || b.t == 'b':
+			return (a.boolean() == b.boolean()) == (op == "=")
+		case a.t == 'n' || b.t == 'n':
+			return numCmp(op, a.num(), b.num())
+		}
+		return (a.str() == b.str()) == (op == "=")
+	}
+	return numCmp(op, a.num(), b.num())
 }
 
 func eval(t *tree) (val, bool) {
@@ -200,7 +292,7 @@ func eval(t *tree) (val, bool) {
 		case l.isNum:
 			return val{n: l.num, t: 'n'}, true
 		case l.isSet:
-			return val{n: l.num, s: l.str, t: 'q'}, true
+			return val{items: l.items, t: 'q'}, true
 		}
 		return val{s: l.str, t: 's'}, true
 	case kNeg:
@@ -230,16 +322,26 @@ func eval(t *tree) (val, bool) {
 	case "mod":
 		return val{n: math.Mod(a.num(), b.num()), t: 'n'}, true
 	case "|":
-		// only between node-set leaves; the union's first node in document order: the smaller position.  Leaves are
-		// chosen so that the value identifies the position: r/@n (2) precedes every child; children in value order.
 		if a.t != 'q' || b.t != 'q' {
-			return val{}, false
+			return val{}, false // a type error at run time: not a structure test
 		}
-		m := a
-		if b.n < a.n {
-			m = b
+		var out []item
+		i, j := 0, 0
+		for i < len(a.items) || j < len(b.items) {
+			switch {
+			case j >= len(b.items) || i < len(a.items) && a.items[i].pos < b.items[j].pos:
+				out = append(out, a.items[i])
+				i++
+			case i >= len(a.items) || b.items[j].pos < a.items[i].pos:
+				out = append(out, b.items[j])
+				j++
+			default:
+				out = append(out, a.items[i])
+				i++
+				j++
+			}
 		}
-		return val{n: m.n, s: m.s, t: 'q'}, true
+		return val{items: out, t: 'q'}, true
 	}
 	return val{}, false
 }
@@ -597,7 +699,7 @@ func (p *parser) primary() bool {
 func (p *parser) predicate() bool { return p.eat("[", "") && p.orExpr() && p.eat("]", "") }
 func (p *parser) startsStep() bool {
 	t := p.peek()
-	return t.k == "name" || t.k == "*" || t.k == "@" || t.k == "axis" || t.k == "nodetype" || t.k == "." || t.k == ".."
+	return t.k == "name" || t.k == "*" || t.k == "@" || t.k == "axis" || t.k == "nodetype" || t.k == "." || t.k == ".." || t.k == "fn"
 }
 func (p *parser) locationPath() bool {
 	if p.eat("/", "") {
@@ -625,6 +727,9 @@ func (p *parser) relPath() bool {
 func (p *parser) step() bool {
 	if p.eat(".", "") || p.eat("..", "") {
 		return true
+	}
+	if p.peek().k == "fn" {
+		return p.primary() // library extension: a function call as a step (P/f())
 	}
 	if p.eat("@", "") {
 	} else if p.peek().k == "axis" {
@@ -672,6 +777,37 @@ func recognise(s string) bool {
 }
 
 // ---------- driver ----------
+var (
+	reWsNumber = regexp.MustCompile(`[0-9]\s+\.\s*[0-9]|[0-9]\.\s+[0-9]`)
+	reWsQName  = regexp.MustCompile(`[A-Za-z0-9_.-]\s+:[A-Za-z_*]|[A-Za-z0-9_.-]:\s+[A-Za-z_*]|[A-Za-z0-9_.-]\s+:\s+[A-Za-z_*]`)
+)
+
+// classOf attributes a failure to one of the defect classes of the generated parser that are recorded as known
+// findings; "" = not one of them.
+func classOf(f failure) string {
+	rejectedValid := f.Kind == "rejected a valid expression" || f.Kind == "accept/reject" && f.Want == "true"
+	acceptedInvalid := f.Kind == "accept/reject" && f.Want == "false"
+	if rejectedValid {
+		if toks, ok := lex(f.Expr); ok {
+			for _, t := range toks {
+				if (t.k == "name" || t.k == "fn" || t.k == "axis") && (t.s == "div" || t.s == "mod" || t.s == "and" || t.s == "or") {
+					return "operator-name-as-name-test"
+				}
+				if t.k == "fn" && axes[t.s] {
+					return "axis-name-as-function-name"
+				}
+			}
+		}
+	}
+	if acceptedInvalid && reWsNumber.MatchString(f.Expr) {
+		return "white-space-inside-number"
+	}
+	if acceptedInvalid && reWsQName.MatchString(f.Expr) {
+		return "white-space-inside-qname"
+	}
+	return ""
+}
+
 type failure struct {
 	Kind   string `json:"kind"`
 	Expr   string `json:"expr"`
@@ -693,7 +829,9 @@ func build(s string) (g *xsel.Grammar, err error, panicked string) {
 func main() {
 	depth := flag.Int("n", 2, "maximal operator nesting depth of the enumerated trees")
 	outPath := flag.String("o", "", "write the JSON summary here")
-	maxFail := flag.Int("maxfail", 20, "stop after this many failures")
+	maxFail := flag.Int("maxfail", 200000, "stop after this many failures")
+	knownFlag := flag.String("known", "", "comma-separated defect classes listed in known-findings.json (failures of these classes are reported as known, not as failures)")
+	sample := flag.Int("sample", 3000, "number of trees sampled at every depth >= 2")
 	flag.Parse()
 	cur, err := xsel.ReadXml(strings.NewReader(doc))
 	if err != nil {
@@ -795,10 +933,20 @@ func main() {
 		for _, l := range level {
 			all = append(all, l...)
 		}
-		// thin out deeper levels deterministically so that the run time stays bounded
+		// deeper levels: a deterministic sample of fixed size (every stride-th combination)
+		total := 0
+		for range binops {
+			for _, a := range all {
+				for _, b := range all {
+					if treeDepth(a) == d-1 || treeDepth(b) == d-1 {
+						total++
+					}
+				}
+			}
+		}
 		stride := 1
-		if d >= 2 {
-			stride = 37
+		if d >= 2 && total > *sample {
+			stride = total / *sample
 		}
 		cnt := 0
 		for _, op := range binops {
@@ -815,9 +963,8 @@ func main() {
 				}
 			}
 		}
-		for _, a := range prev {
-			cnt++
-			if cnt%stride == 0 || d == 1 {
+		for i, a := range prev {
+			if d == 1 || i%stride == 0 {
 				cur = append(cur, &tree{k: kNeg, l: a})
 			}
 		}
@@ -828,12 +975,51 @@ func main() {
 			check(t)
 		}
 	}
+	// probes: names that spell an operator, alone and as operands
+	for _, lf := range opNameLeaves {
+		lt := &tree{k: kLeaf, leaf: lf}
+		check(lt)
+		for _, op := range binops {
+			check(&tree{k: kBin, op: op.op, l: lt, r: &tree{k: kLeaf, leaf: leaves[0]}})
+			check(&tree{k: kBin, op: op.op, l: &tree{k: kLeaf, leaf: leaves[4]}, r: lt})
+		}
+	}
+	for _, s := range []string{"p : a", "p: a", "p :a", "p :*", "1 . 5", "1. 5", "1 .5"} {
+		checkSyntax(s)
+	}
+	knownSet := map[string]bool{}
+	for _, k := range strings.Split(*knownFlag, ",") {
+		if k != "" {
+			knownSet[k] = true
+		}
+	}
+	type classInfo struct {
+		Count   int    `json:"count"`
+		Witness string `json:"witness"`
+		Listed  bool   `json:"listed_as_known_finding"`
+	}
+	classes := map[string]*classInfo{}
+	var unexplained []failure
+	for _, f := range fails {
+		c := classOf(f)
+		if c == "" || !knownSet[c] {
+			unexplained = append(unexplained, f)
+		}
+		if c != "" {
+			if classes[c] == nil {
+				classes[c] = &classInfo{Witness: f.Expr, Listed: knownSet[c]}
+			}
+			classes[c].Count++
+		}
+	}
+	fails = unexplained
 	sum := map[string]interface{}{
 		"what":                 "parser stand-in for C08: structure (tree value vs library value over renderings) and accept/reject (independent recogniser vs BuildExpr) ",
-		"bound":                fmt.Sprintf("operator nesting depth <= %d over %d leaves and %d binary operators + unary minus (levels >= 2 thinned 1/37); 6 renderings per tree; single-token deletions, duplications, swaps", *depth, len(leaves), len(binops)),
+		"bound":                fmt.Sprintf("operator nesting depth <= %d over %d leaves and %d binary operators + unary minus (depth >= 2: deterministic sample of %d trees per depth); 6 renderings per tree; single-token deletions, duplications, swaps", *depth, len(leaves), len(binops), *sample),
 		"trees":                nTrees,
 		"structure_checks":     nStruct,
 		"accept_reject_checks": nSyntax,
+		"known_classes":        classes,
 		"failures":             fails,
 	}
 	b, _ := json.MarshalIndent(sum, "", " ")
